@@ -118,6 +118,11 @@ func (y *yieldAst) CallFor(cond, post, body ast.Expr) *ast.CallExpr {
 	if isNil(post) {
 		return y.SeqCall(cstWhile, cond, body)
 	}
+	if isNil(cond) {
+		// for init; ; post { ... }: no condition. Pass the untyped nil, not a typed
+		// nil *ast.FuncLit, which the printer cannot print
+		return y.SeqCall(cstFor, X.Ident("nil"), post, body)
+	}
 	return y.SeqCall(cstFor, cond, post, body)
 }
 
